@@ -745,6 +745,8 @@ impl DB {
                 Ok(num_files.to_string())
             }
             DatabaseDescriptor::Stats => {
+                // The summary takes the (non-reentrant) database lock itself
+                drop(db_fields_guard);
                 let db_stats = self.summarize_compaction_stats();
                 Ok(db_stats)
             }
